@@ -54,6 +54,7 @@ func Send[T any](ch chan T, v T, site string) {
 		t.pend = pending{kind: opSend, obj: st, site: site, enabled: func() bool { return st.closed || st.waiting > len(st.handoff) }}
 		s.point(t)
 		s.trace("send (rendezvous) %s", site)
+		raceSend(st, site)
 		if st.closed {
 			panic(plainRuntimeError("send on closed channel"))
 		}
@@ -67,6 +68,7 @@ func Send[T any](ch chan T, v T, site string) {
 	}}
 	s.point(t)
 	s.trace("send %s", site)
+	raceSend(st, site)
 	if !st.closed {
 		// k-th receive happens before the (k+cap)-th send
 		if i := st.sends - st.capacity; i >= 0 && i < len(st.recvVCs) {
@@ -149,6 +151,7 @@ func Close[T any](ch chan T, site string) {
 	t.pend = pending{kind: opClose, obj: st, site: site}
 	s.point(t)
 	s.trace("close %s", site)
+	raceClose(st, site)
 	close(ch) // panics like the real thing on a double close
 	st.closed = true
 	st.closeVC = t.vc
@@ -168,3 +171,19 @@ func (e plainRuntimeError) RuntimeError() {}
 func FromRecv[T any](ch <-chan T) chan T { return *(*chan T)(unsafe.Pointer(&ch)) }
 
 func FromSend[T any](ch chan<- T) chan T { return *(*chan T)(unsafe.Pointer(&ch)) }
+
+// Go's race detector treats a send as a read and a close as a write of the
+// channel (runtime/chan.go: racereadpc in chansend, racewritepc in closechan):
+// a close that is not ordered with a send is reported as a data race - it is
+// the window in which the send panics. The explored executions report the same.
+func raceSend(st *chanState, site string) {
+	if st.key != 0 {
+		Acc(unsafe.Pointer(st.key), false, site+" (channel send)")
+	}
+}
+
+func raceClose(st *chanState, site string) {
+	if st.key != 0 {
+		Acc(unsafe.Pointer(st.key), true, site+" (channel close)")
+	}
+}
